@@ -1,7 +1,7 @@
 (* C18 - Deck-style draws and count bookkeeping are exact.
    This file holds only the property theorems; proofs live in Proofs/DrawP.v. *)
 From Coq Require Import ZArith List.
-From Dyce Require Import Base.Sums Base.Order Base.Hist Base.QcOrd Model.Draw Proofs.DrawP.
+From Dyce Require Import Base.Sums Base.Order Base.Hist Base.QcOrd Model.Draw Proofs.DrawP Proofs.DrawLawsP.
 Import ListNotations.
 Open Scope Z_scope.
 
@@ -53,6 +53,33 @@ Theorem C18_remove : forall {T} (O : ord T) h o, sasc O (keys h) ->
   (forall y, In y (keys (remove O h o)) <-> In y (keys h) /\ y <> o).
 Proof. exact @remove_spec. Qed.
 Print Assumptions C18_remove.
+
+(* laws of successive draws (Proofs/DrawLawsP.v): a deck drawn against itself is exhausted, every
+   original outcome kept at count zero *)
+Theorem C18_draw_exhausts : forall {T} (O : ord T) h, wf O h ->
+  exists h', draw O h h = Ok h' /\ (forall z, cnt O h' z = 0) /\ total h' = 0 /\
+             (forall y, In y (keys h') <-> In y (keys h)) /\ wf O h'.
+Proof. exact @draw_exhaust. Qed.
+Print Assumptions C18_draw_exhausts.
+
+(* putting back exactly what was drawn (the negated request) restores every count and the total *)
+Theorem C18_draw_undo : forall {T} (O : ord T) h r h', wf O h -> draw O h r = Ok h' ->
+  exists h'', draw O h' (negreq r) = Ok h'' /\ (forall z, cnt O h'' z = cnt O h z) /\ total h'' = total h.
+Proof. exact @draw_undo. Qed.
+Print Assumptions C18_draw_undo.
+
+(* the order of two successive draws does not matter *)
+Theorem C18_draws_commute : forall {T} (O : ord T) h r1 r2 a b, wf O h ->
+  draws O h [r1; r2] = Ok a -> draws O h [r2; r1] = Ok b ->
+  (forall z, cnt O a z = cnt O b z) /\ total a = total b.
+Proof. exact @draws_commute. Qed.
+Print Assumptions C18_draws_commute.
+
+(* two successive draws that succeed equal one draw of the combined request *)
+Theorem C18_draws_combined : forall {T} (O : ord T) h r1 r2 a, wf O h -> draws O h [r1; r2] = Ok a ->
+  exists c, draw O h (r1 ++ r2) = Ok c /\ (forall z, cnt O c z = cnt O a z) /\ total c = total a.
+Proof. exact @draws_combined. Qed.
+Print Assumptions C18_draws_combined.
 
 (* non-vacuity: a concrete deck, a successful and a failing draw *)
 Example C18_nonvacuous :
